@@ -955,4 +955,241 @@ def standin_unrepresentable(tier, seed):
     return dict(name='unrepresentable', bound=bound, cases=len(cases), status='ok')
 
 
-STANDINS = [standin_json_roundtrip, standin_yaml_roundtrip, standin_toml_roundtrip, standin_yamlmulti_stream, standin_convert_expr, standin_unrepresentable]
+# ---------------------------------------------------------------------------------------------------------------------
+# the artifact after a build is the converter's text WHATEVER the artifact path held before ("the text produced by an out statement
+# ... read by an independent decoder, yields the same data" -- the reader reads the file, not the bytes of the last write)
+def build_over(work, items, fmt, alone=False):
+    """items: [(source, prior artifact bytes | None | callable(path) that prepares the artifact path)].  Writes c<i>.ucg and the prior
+    artifacts, runs ONE `ucg build` over all files (alone=True: one invocation per file), -> (rc | [rc], [artifact bytes or None])."""
+    names = []
+    for i, (src, prior) in enumerate(items):
+        n = 'c%04d' % i
+        with open(os.path.join(work, n + '.ucg'), 'w', encoding='utf-8', newline='') as f:
+            f.write(src)
+        art = os.path.join(work, n + '.' + EXT[fmt])
+        if callable(prior):
+            prior(art)
+        elif prior is not None:
+            with open(art, 'wb') as f:
+                f.write(prior)
+        names.append(n)
+    if alone:
+        rc = [R.run_ucg(['build', n + '.ucg'], work, timeout=120)[0] for n in names]
+    else:
+        rc = R.run_ucg(['build'] + [n + '.ucg' for n in names], work, timeout=600)[0]
+    arts = []
+    for n in names:
+        art = os.path.join(work, n + '.' + EXT[fmt])
+        try:
+            with open(art, 'rb') as f:
+                arts.append(f.read())
+        except OSError:
+            arts.append(None)
+    return rc, arts
+
+
+def art_text(raw):
+    if raw is None:
+        return None
+    try:
+        return raw.decode('utf-8')
+    except UnicodeDecodeError:
+        return raw.decode('latin-1') + '\x00<<artifact is not UTF-8>>'
+
+
+def same_length_variant(raw):
+    """The same number of bytes, different content (every ASCII letter / digit replaced): an artifact of an 'earlier value' of exactly the new size."""
+    return bytes((0x78 if (48 <= b <= 57 or 65 <= b <= 90 or 97 <= b <= 122) else b) for b in raw)
+
+
+def _p_readonly(data):
+    def prep(path):
+        with open(path, 'wb') as f:
+            f.write(data)
+        os.chmod(path, 0o444)
+    return prep
+
+
+def _p_directory(path):
+    os.mkdir(path)
+
+
+def _p_symlink(data, dangling=False):
+    def prep(path):
+        target = path + '.target'
+        if not dangling:
+            with open(target, 'wb') as f:
+                f.write(data)
+        os.symlink(os.path.basename(target), path)
+    return prep
+
+
+def _p_hardlink(data):
+    def prep(path):
+        with open(path + '.other', 'wb') as f:
+            f.write(data)
+        os.link(path + '.other', path)
+    return prep
+
+
+def rebuild_values(fmt, tier, rnd):
+    """(new value, a 'previous' value whose text is longer) pairs of the format's family."""
+    n = 24 if tier == 'thorough' else 6
+    if fmt == 'yamlmulti':
+        pool = [[1], ['a', 'b'], [Tup([('a', 1)]), Tup([('b', [1, 2])])], 'x', Tup([('name', 'svc')]), [], [None, 'two'], ['---', 'a\n---\nb\n']]
+        pool += [gen_value(rnd, 'yaml', rnd.randint(0, 3)) for _ in range(n)]
+    else:
+        pool = [Tup([('name', 'svc')]), Tup([]), Tup([('a', 1), ('l', [1, 2, 3]), ('s', 'line1\nline2\n'), ('t', Tup([('k', 'v')]))]), Tup([('k', 'x\n\n')])]
+        if fmt != 'toml':
+            pool += [1, 's', [], [1, 'two', None], None, True, 'trail\n\n']
+        pool += [gen_top(rnd, fmt, rnd.randint(1, 3)) for _ in range(n)]
+    vals = pool if tier == 'thorough' else pool[:3] + rnd.sample(pool[3:], 5)
+    out = []
+    for v in vals:
+        pad = 'previous build ' * 20
+        if fmt == 'yamlmulti':
+            longer = (v if isinstance(v, list) else [v]) + [pad, Tup([('old', [1, 2, 3])])]
+        else:
+            longer = Tup([('v', v), ('zz_previous', pad), ('zz_ports', [8080, 8081, 8082])])
+        out.append((v, longer))
+    return out
+
+
+def standin_rebuild_over_existing(tier, seed):
+    """Write / build an artifact first, then build the program: the artifact decodes to the value of THIS build, whatever was there."""
+    fmts = [f for f in ('json', 'yaml', 'toml', 'yamlmulti') if not need(f)]
+    name = 'rebuild_over_existing'
+    PRIORS = ['absent', 'empty', 'text_twice', 'text_plus_junk', 'text_plus_newlines_and_junk', 'non_utf8_longer', 'prefix_half', 'same_length_other_content', 'huge_64k', 'one_byte_longer',
+              'one_byte_shorter', 'hard_link_to_longer']
+    SPECIAL = ['read_only_longer', 'directory', 'symlink_to_longer', 'dangling_symlink']
+    bound = ('for each of %s: seeded values of the format\'s family (%s per format), (a) built twice in the same directory -- previous value longer -> new, new -> longer, same -> same -- and (b) built over an '
+             'artifact path prepared as {%s} (text = what a clean build writes); after an exit-0 build the artifact decodes (independent decoder) to the value of THIS build; '
+             '(c) over {%s}: the build fails, or the artifact decodes to the value (seed %s)'
+             % ('/'.join(fmts), 'all fixed + 24 random' if tier == 'thorough' else '3 fixed + 5 sampled', ', '.join(PRIORS), ', '.join(SPECIAL), seed))
+    count = {}
+
+    def report(fmt, src, prior_desc, v, rc, raw, why, prior_src=None):
+        d = dict(source=src, prior_artifact=prior_desc, expected='exit 0 and an artifact that decodes to %s' % show(v),
+                 observed='exit %s; artifact: %r; %s' % (rc, art_text(raw), why),
+                 how='in an empty directory: prepare x.%s as described under prior_artifact%s, write the source to x.ucg, run the real `ucg build x.ucg`, decode x.%s with %s'
+                     % (EXT[fmt], ' (build prior_source as x.ucg first)' if prior_src else '', EXT[fmt], DECODER_NAME[fmt]))
+        if prior_src:
+            d['prior_source'] = prior_src
+        return dict(name=name, bound=bound, cases=sum(count.values()), status='violation', detail='`%s` built over %s -> %s' % (src.strip()[:120], prior_desc[:120], why[:240]), input=d)
+
+    def confirm_alone(fmt, src, prior, v, prior_src=None):
+        """The replay: a fresh directory, this file alone.  -> (why | None, rc, raw)"""
+        work = tempfile.mkdtemp(prefix='verif_c03r_')
+        try:
+            if prior_src is not None:
+                build_over(work, [(prior_src, None)], fmt)
+                prior = None
+            rc, arts = build_over(work, [(src, prior)], fmt, alone=True)
+            return verdict_ok_case(fmt, v, rc[0], art_text(arts[0])), rc[0], arts[0]
+        finally:
+            shutil.rmtree(work, ignore_errors=True)
+
+    def one_format(fmt):
+        n_cases = 0
+        rnd = random.Random('rebuild-%s-%s' % (fmt, seed))
+        pairs = rebuild_values(fmt, tier, rnd)
+        srcs = ['out %s %s;\n' % (fmt, ucg_lit(v)) for v, _ in pairs]
+        longs = ['out %s %s;\n' % (fmt, ucg_lit(w)) for _, w in pairs]
+        # ---- (a) two builds in the same directory
+        for first, second, vals, label in ((longs, srcs, [v for v, _ in pairs], 'longer previous value'), (srcs, longs, [w for _, w in pairs], 'shorter previous value'),
+                                           (srcs, srcs, [v for v, _ in pairs], 'same value')):
+            work = tempfile.mkdtemp(prefix='verif_c03r_')
+            try:
+                rc0, arts0 = build_over(work, [(s_, None) for s_ in first], fmt)
+                rc1, arts1 = build_over(work, [(s_, None) for s_ in second], fmt)
+            finally:
+                shutil.rmtree(work, ignore_errors=True)
+            for s1, s2, v, a0, a1 in zip(first, second, vals, arts0, arts1):
+                n_cases += 1
+                count[fmt] = n_cases
+                if a0 is None:
+                    continue            # the first build wrote nothing: the plain round-trip families judge that
+                why = verdict_ok_case(fmt, v, rc1, art_text(a1))
+                if why is None:
+                    continue
+                why1, rc_a, raw_a = confirm_alone(fmt, s2, None, v, prior_src=s1)
+                if why1 is None:
+                    continue
+                return report(fmt, s2, 'the artifact of an earlier build of prior_source (%s, %d bytes)' % (label, len(a0)), v, rc_a, raw_a, why1, prior_src=s1)
+        # ---- the text a clean build writes
+        work = tempfile.mkdtemp(prefix='verif_c03r_')
+        try:
+            rc, clean = build_over(work, [(s_, None) for s_ in srcs], fmt)
+        finally:
+            shutil.rmtree(work, ignore_errors=True)
+        # ---- (b) prepared artifact paths, writable: strict
+        items, meta = [], []
+        for (v, _), src, T in zip(pairs, srcs, clean):
+            if T is None or verdict_ok_case(fmt, v, 0, art_text(T)) is not None:
+                continue                # not a faithful clean build: the plain round-trip families report that
+            priors = dict(absent=None, empty=b'', text_twice=T + T, text_plus_junk=T + b'}]"\'\x00 junk: [{\n', text_plus_newlines_and_junk=T + b'\n\n\n---\nold: [1, 2\n',
+                          non_utf8_longer=b'\xff\xfe\x00\xc3' * (len(T) // 4 + 8), prefix_half=T[:len(T) // 2], same_length_other_content=same_length_variant(T),
+                          huge_64k=b'# earlier build\n' * 4096, one_byte_longer=T + b'x', one_byte_shorter=T[:-1] if T else b'', hard_link_to_longer=_p_hardlink(T + T))
+            assert sorted(priors) == sorted(PRIORS)
+            for k in PRIORS:
+                items.append((src, priors[k]))
+                meta.append((v, k, priors[k]))
+        work = tempfile.mkdtemp(prefix='verif_c03r_')
+        try:
+            rc, arts = build_over(work, items, fmt)
+        finally:
+            shutil.rmtree(work, ignore_errors=True)
+        for (src, prior), (v, k, _), raw in zip(items, meta, arts):
+            n_cases += 1
+            count[fmt] = n_cases
+            why = verdict_ok_case(fmt, v, rc, art_text(raw))
+            if why is None:
+                continue
+            why1, rc_a, raw_a = confirm_alone(fmt, src, prior, v)
+            if why1 is None:
+                continue
+            desc = '%s: %s' % (k, 'a hard link to a file holding the clean text twice' if callable(prior) else ('no file' if prior is None else '%d bytes %r%s' % (len(prior), prior[:300], '...' if len(prior) > 300 else '')))
+            return report(fmt, src, desc, v, rc_a, raw_a, why1)
+        # ---- (c) artifact paths a build may be unable to (over)write: an error, or the faithful artifact -- never exit 0 with anything else
+        sample = [(p_, s_, T) for p_, s_, T in zip(pairs, srcs, clean) if T is not None][:(4 if tier == 'thorough' else 1)]
+        items, meta = [], []
+        for (v, _), src, T in sample:
+            spec = dict(read_only_longer=_p_readonly(T + T), directory=_p_directory, symlink_to_longer=_p_symlink(T + b'\n# old tail\n' + T), dangling_symlink=_p_symlink(b'', dangling=True))
+            for k in SPECIAL:
+                items.append((src, spec[k]))
+                meta.append((v, k))
+        work = tempfile.mkdtemp(prefix='verif_c03r_')
+        try:
+            rcs, arts = build_over(work, items, fmt, alone=True)
+        finally:
+            for dp, dn, fn in os.walk(work):
+                for f in fn:
+                    try:
+                        os.chmod(os.path.join(dp, f), 0o644)
+                    except OSError:
+                        pass
+            shutil.rmtree(work, ignore_errors=True)
+        for (src, _), (v, k), rc1, raw in zip(items, meta, rcs, arts):
+            n_cases += 1
+            count[fmt] = n_cases
+            if rc1 != 0:
+                continue
+            why = verdict_ok_case(fmt, v, rc1, art_text(raw))
+            if why is not None:
+                return report(fmt, src, '%s (x.%s prepared as a %s before the build; `ucg build` exits 0)' % (k, EXT[fmt], k.replace('_', ' ')), v, rc1, raw, why)
+        return None
+
+    R.ucg_binary()              # build once before the worker threads start
+    if yaml_module() is not None:
+        core_loader()
+    import concurrent.futures as cf
+    with cf.ThreadPoolExecutor(max_workers=len(fmts) or 1) as pool:
+        results = list(pool.map(one_format, fmts))
+    for r in results:
+        if r is not None:
+            r['cases'] = sum(count.values())
+            return r
+    return dict(name=name, bound=bound, cases=sum(count.values()), status='ok')
+
+
+STANDINS = [standin_rebuild_over_existing, standin_json_roundtrip, standin_yaml_roundtrip, standin_toml_roundtrip, standin_yamlmulti_stream, standin_convert_expr, standin_unrepresentable]
